@@ -95,7 +95,7 @@ func newSimpleAuth(cfg authConfig) (*simpleAuth, error) {
 			}
 
 			if entry.ACL.Write == "" {
-				acl.read = s.write
+				acl.write = s.write
 			} else if acl.write, e = regexp.Compile(entry.ACL.Write); e != nil {
 				return e
 			}
